@@ -8,6 +8,8 @@ Local Open Scope N_scope.
 
 Definition fname : Type := string.
 Definition fname_eqb : fname -> fname -> bool := String.eqb.
+(** names of the files of the raft store directory *)
+Definition fn_index : fname := "index"%string.
 
 (** seek(off) + write_all(data) on a file that is not truncated; a gap is zero-filled *)
 Definition write_at (f : list N) (off : nat) (data : list N) : list N :=
